@@ -95,3 +95,64 @@ def visitor_unit(kf):
 
 UNITS['c20_visitor'] = (['C20'], visitor_unit)
 SEARCH['c20_visitor'] = ['c20_policy']
+
+
+# ----------------------------------------------------------------------------------------------------------------------
+# the policy of a batch response: the merge over ALL its items
+from vx.unit import IterFold  # noqa: E402
+
+RS = 'src/response.rs'
+
+BATCH_SHIMS = r'''
+// field-subset shim of Response (conformance-checked): only the policy matters here
+pub struct Response { pub cache_control: CacheControl }
+pub fn cache_control_default() -> (r: CacheControl) ensures r == (CacheControl { public: true, max_age: 0 }) { CacheControl { public: true, max_age: 0 } }
+'''
+
+BATCH_SPEC = r'''
+pub open spec fn batch_policy(items: Seq<Response>, n: nat) -> CacheControl decreases n {
+    if n == 0 || n > items.len() { CacheControl { public: true, max_age: 0 } } else { spec_merge(batch_policy(items, (n - 1) as nat), items[n - 1].cache_control) }
+}
+pub proof fn lemma_batch_wf(items: Seq<Response>, n: nat)
+    requires n <= items.len(), forall|j: int| 0 <= j < n ==> (#[trigger] items[j]).cache_control.max_age >= -1
+    ensures batch_policy(items, n).max_age >= -1 decreases n
+{ if n > 0 { lemma_batch_wf(items, (n - 1) as nat); } }
+// the property itself, as a consequence of the fold: the batch policy is never looser than any item's
+pub proof fn lemma_batch_not_looser(items: Seq<Response>, n: nat, i: int)
+    requires 0 <= i < n <= items.len(), forall|j: int| 0 <= j < n ==> (#[trigger] items[j]).cache_control.max_age >= -1   // well-formed policies: -1 (no-cache), 0 (no hint) or a positive max-age
+    ensures (!items[i].cache_control.public ==> !batch_policy(items, n).public),
+            (items[i].cache_control.max_age == -1 ==> batch_policy(items, n).max_age == -1),
+            (items[i].cache_control.max_age > 0 ==> batch_policy(items, n).max_age == -1 || (0 < batch_policy(items, n).max_age <= items[i].cache_control.max_age))
+    decreases n
+{
+    let prev = batch_policy(items, (n - 1) as nat); let x = items[n - 1].cache_control;
+    assert(batch_policy(items, n) == spec_merge(prev, x));
+    lemma_batch_wf(items, (n - 1) as nat);
+    if i < n - 1 { lemma_batch_not_looser(items, (n - 1) as nat, i); }
+}
+'''
+
+
+def batch_unit(kf):
+    u = Unit('c20_batch', ['C20'], 'BatchResponse::cache_control is the merge over all responses of the batch, hence never looser than any of them')
+    u.kf = kf
+    u.extract_type(F, ['struct CacheControl'], keep_derives=['Clone', 'Copy'])
+    u.spec(_MERGE_SPEC, 'merge spec')
+    u.extract_fn(F, ['impl CacheControl', 'fn merge'], wrap_impl='CacheControl', ensures=['r == spec_merge(self, *other)'], canary=False,
+                 label=F + '::impl CacheControl::fn merge (callee, proved in c20_merge)')
+    u.trusted(BATCH_SHIMS, 'Response shim')
+    u.shim_conformance(RS, ['struct Response'], [('cache_control', 'CacheControl')])
+    u.extract_type(RS, ['enum BatchResponse'])
+    u.spec(BATCH_SPEC, 'batch policy spec + not-looser lemma')
+    u.extract_fn(RS, ['impl BatchResponse', 'fn cache_control'], wrap_impl='BatchResponse',
+                 rewrites=[IterFold(), Sub('CacheControl::default()', 'cache_control_default()', rule='R-ty')],
+                 ensures=['match *self { BatchResponse::Single(resp) => r == resp.cache_control, BatchResponse::Batch(resp) => r == batch_policy(resp@, resp@.len()) }'],
+                 loops={0: dict(prop=['acc == batch_policy(resp@, itf.index@ as nat)'], aux=[],
+                                head='proof { assert(*item == resp@[itf.index@ as int]); }')})
+    u.assume('CacheControl::default() is { public: true, max_age: 0 } (derive(Default) on the real struct with `public` defaulting to true: see impl Default)')
+    u.search_case('response.rs', 'c20_policy')
+    return u
+
+
+UNITS['c20_batch'] = (['C20'], batch_unit)
+SEARCH['c20_batch'] = ['c20_policy']
